@@ -70,7 +70,7 @@ def pulse_arg(p):
     return str(int(p) + 1)
 
 
-def load_args(loads):
+def load_args(loads, attach_perm=None):
     """loads: list of dict(kind, ..., attach=[...]).  Lumped kinds are numbered by
     the program in the order: --load, --rlc-load, --trap-load, laplace; we emit
     them grouped that way and compute the numbers accordingly."""
@@ -78,6 +78,7 @@ def load_args(loads):
     order = {'z': 0, 'rlc': 1, 'trap': 2, 'laplace': 3}
     lumped = [l for l in loads if l['kind'] in order]
     lumped = sorted(enumerate(lumped), key=lambda il: (order[il[1]['kind']], il[0]))
+    att = []
     for num, (_, l) in enumerate(lumped):
         k = l['kind']
         if k == 'z':
@@ -91,13 +92,18 @@ def load_args(loads):
             a.append('--laplace-load-b=' + ','.join(fl(x) for x in l['b']))
         for at in l['attach']:
             if at == 'all':
-                a.append('--attach-load=%d,all' % (num + 1))
+                att.append('--attach-load=%d,all' % (num + 1))
             elif isinstance(at, dict) and at.get('all'):
-                a.append('--attach-load=%d,all,%d' % (num + 1, at['tag']))
+                att.append('--attach-load=%d,all,%d' % (num + 1, at['tag']))
             elif isinstance(at, dict):
-                a.append('--attach-load=%d,%d,%d' % (num + 1, at['k'] + 1, at['tag']))
+                att.append('--attach-load=%d,%d,%d' % (num + 1, at['k'] + 1, at['tag']))
             else:
-                a.append('--attach-load=%d,%d' % (num + 1, at + 1))
+                att.append('--attach-load=%d,%d' % (num + 1, at + 1))
+    # the attachments may be given in any order (the order decides in which order the program registers the loads)
+    if attach_perm:
+        idx = [i for i in attach_perm if i < len(att)] + [i for i in range(len(att)) if i not in attach_perm]
+        att = [att[i] for i in idx]
+    a += att
     for l in loads:
         k = l['kind']
         tg = '' if l.get('tag') is None else ',%d' % l['tag']
@@ -135,7 +141,7 @@ def argv_of(case, with_sources=True):
         for s in case.get('sources') or []:
             a.append('--excitation-pulse=' + pulse_arg(s['pulse']))
             a.append('--excitation-voltage=' + cplx(s['v']))
-    a += load_args(case.get('loads') or [])
+    a += load_args(case.get('loads') or [], case.get('attach_perm'))
     return a
 
 
@@ -211,3 +217,19 @@ def has_ground(case):
 
 def ref_topology(case, m=None):
     return rtop.build(ref_objs(case, m), has_ground(case))
+
+
+def attach_sequence(loads, attach_perm=None):
+    """the --attach-load options of the lumped loads in the order they are emitted:
+    list of (load number 1.. in the program's numbering, index of the load in `loads`, attachment spec)"""
+    order = {'z': 0, 'rlc': 1, 'trap': 2, 'laplace': 3}
+    lumped = [(i, l) for i, l in enumerate(loads) if l['kind'] in order]
+    lumped = sorted(lumped, key=lambda il: (order[il[1]['kind']], il[0]))
+    seq = []
+    for num, (i, l) in enumerate(lumped):
+        for at in l['attach']:
+            seq.append((num + 1, i, at))
+    if attach_perm:
+        idx = [i for i in attach_perm if i < len(seq)] + [i for i in range(len(seq)) if i not in attach_perm]
+        seq = [seq[i] for i in idx]
+    return seq
